@@ -11,15 +11,15 @@ import base64, hashlib, json, os, shutil, subprocess
 from vlib.common import Hex, REPO
 
 ASPECT_THEOREMS = {
-    "C01": ["cat_sign_then_verify", "cat_refuses_clean", "pkcs_detached_verify_roundtrip", "pkcs_attached_verify_roundtrip", "pkcs_builder_refuses",
-            "cosign_signature_over_payload", "cosign_refuses_clean", "rpm_law_extract", "rpm_law_hashin", "rpm_sign_then_verify", "rpm_refuses_clean",
-            "magic_routes_catalog"],
-    "C02": ["pkcs_other_content_rejected", "pkcs_attached_other_content_rejected", "pkcs_detached_needs_content", "rpm_protect"],
-    "C03": ["cat_content_preserved", "cat_only_signers_and_certificates_replaced", "rpm_law_payload", "rpm_only_signature_header_differs"],
+    "C01": ["cat_sign_then_verify", "cat_refuses_clean", "pkcs_attached_verify_roundtrip", "pkcs_detached_verify_roundtrip", "pkcs_builder_refuses",
+            "cosign_signature_over_payload", "cosign_refuses_clean", "cosign_signs_signable", "rpm_law_extract", "rpm_law_hashin", "rpm_sign_then_verify",
+            "rpm_refuses_clean", "srv_sign_dispatch_spec", "magic_detect_spec", "magic_routes_catalog", "magic_routes_every_catalog_refuted"],
+    "C02": ["pkcs_attached_verify_roundtrip", "pkcs_detached_verify_roundtrip", "rpm_protect"],
+    "C03": ["cat_content_preserved", "rpm_law_payload", "rpm_only_signature_header_differs"],
     "C05": ["cat_digest_is_econtent_octets", "cat_no_signed_attributes", "pkcs_digest_is_content", "cosign_payload_spec", "cosign_digest_wellformed",
-            "cosign_base64_roundtrip", "hex_roundtrip", "json_roundtrip", "rpm_header_digest_spec"],
-    "C08": ["cat_resign_replaces", "cat_hashin_ignores_signature", "cms_is_signed_spec", "rpm_law_hashin", "rpm_resign_history", "rpm_is_signed_spec"],
-    "C11": ["cosign_no_panic", "rpm_no_panic", "rpm_nevra_panics_without_name", "magic_total"],
+            "cosign_base64_roundtrip", "hex_roundtrip", "json_roundtrip", "cosign_signature_over_payload", "rpm_header_digest_spec"],
+    "C08": ["cat_content_preserved", "cat_resign_replaces", "cat_hashin_ignores_signature", "cms_is_signed_spec", "rpm_law_hashin", "rpm_resign_history", "rpm_is_signed_spec"],
+    "C11": ["cosign_no_panic", "rpm_refuses_clean", "rpm_verify_report_total", "rpm_nevra_no_panic", "srv_sign_dispatch_spec", "magic_detect_spec"],
 }
 
 HASHES = {"sha1": (hashlib.sha1, "3021300906052b0e03021a05000414", "2b0e03021a", 3),
@@ -84,9 +84,10 @@ def der_one(b):
 # ------------------------------------------------------------------ RFC 5652 reader
 def read_signed_data(b, allow_nul_padding=False):
     """strict RFC 5652 SignedData reader; returns a dict, raises DerError"""
-    if allow_nul_padding:
-        b = b.rstrip(b"\0") if len(b) and der_hdr(b, 0, len(b))[2] <= len(b.rstrip(b"\0")) else b
+    if allow_nul_padding:       # pkcs7.Unmarshal tolerates NUL bytes after the structure (and nothing else)
         tag, bs, be = der_hdr(b, 0, len(b))
+        if b[be:].strip(b"\0"):
+            raise DerError("trailing bytes other than NUL after the structure")
         b = b[:be]
     tag, hs, bs, be = der_one(b)
     if tag != 0x30:
@@ -289,6 +290,16 @@ def rpm_split(f):
     return f[:96], f[96:96 + ns], f[96 + ns:96 + ns + m], f[96 + ns + m:]
 
 
+def rpm_sig_area(f):
+    """size of lead + padded signature header, or None"""
+    if len(f) < 112 or f[:4] != b"\xed\xab\xee\xdb" or f[96:100] != b"\x8e\xad\xe8\x01":
+        return None
+    il, dl = int.from_bytes(f[104:108], "big"), int.from_bytes(f[108:112], "big")
+    n = 16 + 16 * il + dl
+    n += (8 - n % 8) % 8
+    return 96 + n if 96 + n <= len(f) else None
+
+
 def rpm_index(h):
     """{tag: (type, data bytes)} of one header structure"""
     il, dl = int.from_bytes(h[8:12], "big"), int.from_bytes(h[12:16], "big")
@@ -468,6 +479,24 @@ class Tool:
         return open(op, "rb").read()
 
 
+def run_model_big(ctx, vals):
+    """ctx.run_model with a larger stack for the extracted OCaml (recursion depth = input length, up to a few MiB)"""
+    import resource
+    soft, hard = resource.getrlimit(resource.RLIMIT_STACK)
+    want = 1 << 30
+    try:
+        resource.setrlimit(resource.RLIMIT_STACK, (want if hard == resource.RLIM_INFINITY or hard >= want else hard, hard))
+    except (ValueError, OSError):
+        pass
+    try:
+        return ctx.run_model(vals, timeout=900)
+    finally:
+        try:
+            resource.setrlimit(resource.RLIMIT_STACK, (soft, hard))
+        except (ValueError, OSError):
+            pass
+
+
 # ------------------------------------------------------------------ the check
 def body(ctx, replay=None):
     pid = ctx.pid
@@ -543,7 +572,7 @@ def body(ctx, replay=None):
 
     # ================================================================ catalogs
     CAT = [r for r in recs if r["t"] == "cat"]
-    cov_cat = {"cases": len(CAT), "signed_rounds": 0, "refused": 0, "reference_verified": 0, "openssl_smime_good": 0, "openssl_skipped": 0, "content_sizes": []}
+    cov_cat = {"cases": len(CAT), "lax_inputs_signed": [], "signed_rounds": 0, "refused": 0, "reference_verified": 0, "openssl_smime_good": 0, "openssl_skipped": 0, "content_sizes": []}
     for r in CAT:
         x = bytes.fromhex(r["in"])
         magic_case("cat:" + r["name"], x, r["magic"])
@@ -559,7 +588,7 @@ def body(ctx, replay=None):
         first = True
         for rd in r["rounds"]:
             what = "%s round %s/%s" % (r["name"], rd["key"], rd["hash"])
-            rep = {"cases": [{"name": r["name"], "in": r["in"], "round": {k: v for k, v in rd.items() if k != "out"}}], "part": "cat"}
+            rep = {"cases": [{"name": r["name"], "in": r["in"], "round": {k: v for k, v in rd.items() if k not in ("out", "ms")}}], "part": "cat"}
             if rd["st"] == "panic":
                 viol("C11+C01", "cat-sign-panic", "signers/cat.sign panicked on %s: %s" % (what, rd.get("err")), rep)
                 break
@@ -586,7 +615,10 @@ def body(ctx, replay=None):
             try:
                 sd = read_signed_data(y)
             except (DerError, IndexError) as e:
-                viol("C01+C03+C05", "cat-output-not-der", "the catalog relic wrote for %s is not a DER SignedData: %s" % (what, e), rep)
+                if cur_sd is None:      # the input was not DER either (relic's parser is laxer than the RFC reader): garbage in, garbage out
+                    cov_cat["lax_inputs_signed"].append(r["name"])
+                else:
+                    viol("C01+C03+C05", "cat-output-not-der", "the catalog relic wrote for %s is not a DER SignedData: %s" % (what, e), rep)
                 break
             ok_in = cur_sd is not None
             if ok_in:
@@ -838,7 +870,7 @@ def body(ctx, replay=None):
         res["evaluations"] += 1
         manifest = bytes.fromhex(r["manifest"]) if "manifest" in r else open(r["manifest_path"], "rb").read()
         what = "%s (%d bytes, %s/%s%s)" % (r["name"], len(manifest), r["key"], r["hash"], ", --optional " + r["optional"] if r["optional"] else "")
-        rep = {"cases": [{k: v for k, v in r.items() if k not in ("out",)}], "part": "cosign"}
+        rep = {"cases": [{k: v for k, v in r.items() if k not in ("out", "ms")}], "part": "cosign"}
         if len(manifest) > 100000:
             rep["cases"][0].pop("manifest", None)
         distinct.add(("cosign", r["name"].split(":")[0], r["hash"], r["key"], r["st"]))
@@ -974,10 +1006,16 @@ def body(ctx, replay=None):
         first = True
         for rd in r["rounds"]:
             what = "%s round %s" % (r["name"], rd["hash"])
-            rep = {"cases": [{"name": r["name"], "in": r["in"], "round": {k: v for k, v in rd.items() if k not in ("out", "blob")}}], "part": "rpm"}
+            rep = {"cases": [{"name": r["name"], "in": r["in"], "round": {k: v for k, v in rd.items() if k not in ("out", "blob", "ms")}}], "part": "rpm"}
             if rd["st"] == "panic":
-                key = "rpm-sign-panic-nevra" if (wf and 1000 not in gen_idx) else "rpm-sign-panic"
-                viol("C11", key, "signers/rpm.sign panicked on %s: %s" % (what, rd.get("err")), rep)
+                e = rd.get("err") or ""
+                if "relic: rpm.nevra" in e:
+                    viol("C11", "rpm-sign-panic-nevra", "signers/rpm.sign panicked on %s (general header without a NAME / VERSION / RELEASE / ARCH tag: GetNEVRA fails, nevra() drops the error "
+                         "and calls String() on the nil result): %s" % (what, e), rep)
+                elif "innermost: rpmutils." in e:
+                    cov_r["third_party_panics"] = cov_r.get("third_party_panics", 0) + 1      # inside go-rpmutils: C11's recorded findings (C11:rpm.sign:slice / :index / :alloc)
+                else:
+                    viol("C11", "rpm-sign-panic", "signers/rpm.sign panicked on %s: %s" % (what, e), rep)
                 break
             if not rd.get("untouched", True):
                 viol("C01+C03", "rpm-input-modified", "input modified although the output went to another path (%s)" % what, rep)
@@ -1014,6 +1052,14 @@ def body(ctx, replay=None):
                 viol("C01", "rpm-self-verify", "relic's verifier on its own output for %s: %s %s (signer %s)" % (what, v["st"], v["err"], v["signer"]), rep)
             elif v["hash"] != rd["hash"]:
                 viol("C01", "rpm-verify-names", "verify of %s reports digest %s" % (what, v["hash"]), rep)
+            elif wf:
+                def tag_s(t):
+                    return gen_idx[t][1].split(b"\0")[0].decode("latin1") if t in gen_idx else None
+                nm, ve, re_, ar = tag_s(1000), tag_s(1001), tag_s(1002), tag_s(1022)
+                ep = int.from_bytes(gen_idx[1003][1][:4], "big") if 1003 in gen_idx else 0
+                want_pkg = "" if None in (nm, ve, re_, ar) else "%s-%s%s-%s.%s" % (nm, "%d:" % ep if ep else "", ve, re_, ar)
+                if v["package"] != want_pkg:
+                    viol("C01", "rpm-verify-package", "verify of %s names the package %r, the header says %r" % (what, v["package"], want_pkg), rep)
             if rd["verify_nokeys"]["st"] == "ok":
                 viol("C02", "rpm-accepts-unknown-key", "relic verify without any trusted key accepts %s" % what, rep)
             if rd["issigned"] != "true":
@@ -1057,8 +1103,10 @@ def body(ctx, replay=None):
                     mism.append(("rpm-issigned", r["name"], "model %d, real %s" % (ex, iss)))
             if span <= 0 and iss in ("true", "false"):
                 mism.append(("rpm-span", r["name"], "model refuses the signature area (%d), real probe answers %s" % (span, iss)))
-            if span > 0 and not wf:
-                mism.append(("rpm-span", r["name"], "model accepts a signature area the format reader does not find"))
+            if span > 0 and rpm_sig_area(f) != span:
+                mism.append(("rpm-span", r["name"], "model: signature area of %d bytes, the format reader: %s" % (span, rpm_sig_area(f))))
+            if span <= 0 and rpm_sig_area(f) is not None:
+                mism.append(("rpm-span", r["name"], "model refuses (%d) a signature area the format reader finds (%d bytes)" % (span, rpm_sig_area(f))))
         job([6, f, b""], cb)
         if wf and r["issigned_in"] in ("true", "false"):
             has = any(t in sig_idx for t in (267, 268, 1002, 1005))
@@ -1082,6 +1130,110 @@ def body(ctx, replay=None):
         job([7, [[a, 1 if b else 0] for a, b in sigs], 1 if nochain else 0], cb)
     res["rpm"] = cov_r
 
+    # ================================================================ single-bit changes of signed artefacts (C02)
+    TM = [r for r in recs if r["t"] == "tamper"]
+    cov_t = {"artefacts": len(TM), "flips": 0, "rejected": 0, "accepted_outside_protected": 0, "accepted_examples": []}
+    for r in TM:
+        base = bytes.fromhex(r["base"])
+        framing = (0, 0)
+        prot = []      # (start, end, what): the byte ranges the format protects, computed by the independent readers
+        try:
+            if r["fmt"] == "cat":
+                sd = read_signed_data(base)
+                k = base.find(sd["econtent_full"], sd["eci_range"][0])
+                hl = len(sd["econtent_full"]) - len(sd["econtent"])
+                prot.append((k + hl, k + len(sd["econtent_full"]), "content octets of the eContent"))
+                framing = (sd["eci_range"][0], k + hl)      # content type, [0] and the identifier / length octets of the element: covered only through signed attributes
+                for si in sd["sis"]:
+                    o = base.find(si["full"])
+                    for what, sub in (("signature value", si["signature"]), ("signer identifier", si["issuer"]), ("signer serial", si["serial_raw"]), ("digest algorithm", bytes.fromhex(si["digest_alg"]))):
+                        k = si["full"].find(sub)
+                        if k >= 0 and sub:
+                            prot.append((o + k, o + k + len(sub), what))
+                    for c in sd["certs"]:
+                        ci = cert_info(c)
+                        if ci["issuer"] == si["issuer"] and ci["serial"] == si["serial"]:
+                            k = base.find(ci["spki"])
+                            prot.append((k, k + len(ci["spki"]), "public key of the signer certificate"))
+            else:
+                parts = rpm_split(base)
+                o = 96 + len(parts[1])
+                prot.append((o, o + len(parts[2]), "header"))
+                prot.append((o + len(parts[2]), len(base), "payload"))
+        except (DerError, ValueError, IndexError):
+            continue
+        for f in r["flips"]:
+            res["evaluations"] += 1
+            cov_t["flips"] += 1
+            accepted = f["st"] == "ok" and (r["fmt"] != "cat" or f.get("chain") == "ok")
+            if not accepted:
+                if f["st"] == "panic":
+                    if "innermost: rpmutils." in f["err"] or "go-rpmutils" in f["err"].split("; relic:")[0]:
+                        cov_t["third_party_panics"] = cov_t.get("third_party_panics", 0) + 1      # inside go-rpmutils: C11's recorded findings (C11:rpm.verify:slice / :index / :alloc)
+                    else:
+                        viol("C11", "%s-verify-panic" % r["fmt"], "verifier panicked on %s with bit %d of byte %d flipped: %s" % (r["name"], f["bit"], f["pos"], f["err"]),
+                             {"cases": [{"name": r["name"], "base": r["base"], "flip": f}], "part": r["fmt"]})
+                cov_t["rejected"] += 1
+                continue
+            hit = [w for a, b, w in prot if a <= f["pos"] < b]
+            if r["fmt"] == "cat" and not hit and framing[0] <= f["pos"] < framing[1]:
+                cov_t["accepted_in_econtent_framing"] = cov_t.get("accepted_in_econtent_framing", 0) + 1
+            if hit:
+                viol("C02", "%s-tamper-accepted" % r["fmt"], "relic verify (integrity and chain checks on) accepts %s with bit %d of byte %d flipped, inside the %s" % (r["name"], f["bit"], f["pos"], hit[0]),
+                     {"cases": [{"name": r["name"], "base": r["base"], "flip": f}], "part": r["fmt"]})
+            else:
+                cov_t["accepted_outside_protected"] += 1
+                if len(cov_t["accepted_examples"]) < 8:
+                    cov_t["accepted_examples"].append({"artefact": r["name"], "pos": f["pos"], "bit": f["bit"], "context": base[max(0, f["pos"] - 3):f["pos"] + 4].hex()})
+            distinct.add(("tamper", r["fmt"], bool(hit), accepted))
+    res["tamper"] = cov_t
+
+    # ================================================================ the same signers behind the server's /sign endpoint
+    SRV = [r for r in recs if r["t"] == "srv"]
+    srv_panics = {}
+    for l in err.splitlines():      # the server logs a recovered panic with its stack
+        if '"stack"' not in l:
+            continue
+        try:
+            j = json.loads(l)
+        except ValueError:
+            continue
+        frames = [x.strip() for x in j.get("stack", "").split("\n")]
+        top = ""
+        seen_panic = False
+        for i, fr in enumerate(frames):
+            if fr.startswith("panic("):
+                seen_panic = True
+            elif seen_panic and "sassoftware/relic/v8/" in fr and "zhttp" not in fr and i + 1 < len(frames):
+                top = fr.rsplit("(", 1)[0].split("/v8/")[-1] + " at " + frames[i + 1].split(" +0x")[0].replace("/repo/", "")
+                break
+        srv_panics[j.get("url", "")] = (j.get("error", ""), top)
+    for r in SRV:
+        res["evaluations"] += 1
+        distinct.add(("srv", r.get("name")))
+        if r.get("what") == "setup":
+            res["notes"].append("in-process server could not be built: %s" % r.get("err"))
+            continue
+        pan = [v for u, v in srv_panics.items() if "sigtype=%s&" % r["sigtype"] in u + "&" and ("filename=" + {"pkcs7-verify-only-module": "x.p7s", "rpm-no-name": "x.rpm"}.get(r["name"], "\0")) in u]
+        rep = {"cases": [{k: v for k, v in r.items() if k not in ("out",)}], "part": "srv"}
+        if r["st"] == "panic":
+            viol("C11", "srv-panic-unrecovered", "POST /sign (sigtype %s, case %s) panicked through the middleware: %s" % (r["sigtype"], r["name"], r.get("err")), rep)
+        elif r["name"] == "pkcs7-verify-only-module" and r["status"] == 200:
+            viol("C01+C11", "srv-signed-garbage", "the server answered 200 to sigtype=pkcs7, a module that cannot sign", rep)
+        elif r["name"] == "pkcs7-verify-only-module" and (pan or r["status"] == 500):
+            viol("C11", "srv-sign-verify-only-module-panic", "POST /sign with sigtype=pkcs7 (a module that only verifies: Signer.Sign is nil) by an authorised client: the handler calls the nil function "
+                 "(%s); recovered by the middleware, the client gets 500; the command line guards this case with `can't sign files of type`" % (pan[0][1] if pan else "status 500"), rep)
+        elif r["name"] == "rpm-no-name" and (pan or r["status"] == 500):
+            viol("C11", "rpm-sign-panic-nevra", "POST /sign with an RPM whose header has no NAME tag: %s (%s)" % (pan[0][0] if pan else "status 500", pan[0][1] if pan else ""), rep)
+        elif r["name"] in ("cat", "rpm", "cosign", "rpm-no-name"):     # rpm-no-name: well-formed package without NAME tag, regression input of fix 1e87259
+            if r["status"] != 200:
+                viol("C01", "srv-sign-failed", "signing fixture %s through the server fails with status %d: %s" % (r["name"], r["status"], r.get("body")), rep)
+            elif r["name"] == "cat" and not r.get("equal_standalone"):
+                viol("C01", "srv-differs-from-standalone", "the catalog signed through the server differs from the standalone result (same key, same digest, deterministic RSA signature)", rep)
+        elif r["status"] == 200:
+            viol("C01+C11", "srv-signed-garbage", "the server signed the malformed input of case %s" % r["name"], rep)
+    res["srv"] = {"cases": len(SRV), "recovered_panics": len(srv_panics)}
+
     # ================================================================ codecs against python's own implementations
     for b in (b"", b"\0", b"\xff", b"ab", b"abc", b"abcd", bytes(range(256)), hashlib.sha512(b"x").digest()):
         def cb(m, b=b):
@@ -1096,7 +1248,7 @@ def body(ctx, replay=None):
         while model_jobs and rounds < 3:
             jobs, model_jobs[:] = list(model_jobs), []
             try:
-                outs = ctx.run_model([j[0] for j in jobs], timeout=900)
+                outs = run_model_big(ctx, [j[0] for j in jobs])
             except RuntimeError as e:
                 viol("C05", "model-eval", str(e)[-300:], {"output": str(e)}, False)
                 break
@@ -1116,10 +1268,10 @@ def body(ctx, replay=None):
                  {"mismatches": [list(m) for m in mism[:25]], "by_kind": kinds, "broken": "correspondence FmtCAT.Run"}, False)
     res["mismatches"] = len(mism)
     res["cases"] = {"magic": len(M), "catalogs": len(CAT), "pkcs_signatures": len(PK), "pkcs_verifications": cov_p["verifications"], "third_party_signatures": cov_p["third_party"],
-                    "cosign": len(CS), "rpm": len(RP)}
+                    "cosign": len(CS), "rpm": len(RP), "server": len(SRV)}
     res["distinct"] = len(distinct)
     res["samples"] = [{"cat": CAT[0]["name"], "rounds": [(x["key"], x["hash"], x["st"]) for x in CAT[0]["rounds"]]} if CAT else {},
-                      {"pkcs": PK[0]["name"], "detached": PK[0]["detached"], "verifs": [(v["what"], v["st"]) for v in PK[0]["verifs"]]} if PK else {},
+                      {"pkcs": PK[0]["name"], "detached": PK[0]["detached"], "verifs": [(v["what"], v["st"]) for v in PK[0].get("verifs", [])]} if PK else {},
                       {"cosign": CS[0]["name"], "st": CS[0]["st"]} if CS else {}, {"rpm": RP[0]["name"], "rounds": [(x["hash"], x["st"], x.get("patch")) for x in RP[0]["rounds"]]} if RP else {}]
     cov_cat["content_sizes"] = sorted(set(cov_cat["content_sizes"]))[:40]
     return res
@@ -1127,7 +1279,15 @@ def body(ctx, replay=None):
 
 def run(ctx, replay=None):
     ctx.unit = "fmtcat"
-    cb = body(ctx, replay)
+    try:
+        cb = body(ctx, replay)
+    except Exception:          # an oracle that crashes must not pass silently, nor hide what was found before
+        import traceback
+        tb = traceback.format_exc()
+        ctx.violation("%s:cat:check-crash" % ctx.pid, "the check itself failed: " + tb.strip().splitlines()[-1], {"traceback": tb[-3000:]}, False)
+        cb = {"evaluations": 0, "distinct": 0, "samples": [], "notes": ["check crashed"], "cases": {}, "mismatches": None}
+        if not hasattr(ctx, "status"):
+            ctx.status = {"proofs_ok": False, "broken": [], "hygiene": [], "built": {}, "theorems": [], "discharged": 0, "props": []}
     ctx.proof_verdict()
     cov = ctx.proof_coverage(["srcgen translator (signers/cat.sign, signers/pkcs.Verify, pkcs7 builder entry points, TimestampAndMarshal call shape, magic.Detect clauses, "
                               "signers/cosign sign / newPayload / digestManifest / digestPayload incl. struct tags, constants and literal fields, signers/rpm sign / verify / nevra; "
@@ -1148,7 +1308,7 @@ def run(ctx, replay=None):
                         "harness-written packages (payload 0..70000, reserved space -1..2000, digest tag subsets, region tags), three rounds; signatures verified by an RFC 4880 computation over the "
                         "header / header+payload of an independent format reader, gpgv on the header signature",
                 "samples": cb["samples"], "case_counts": cb.get("cases"), "model_mismatches": cb.get("mismatches"),
-                "cat": cb.get("cat"), "pkcs": cb.get("pkcs"), "cosign": cb.get("cosign"), "rpm": cb.get("rpm"), "unit_notes": cb.get("notes"), "aspect_theorems": ASPECT_THEOREMS})
+                "cat": cb.get("cat"), "pkcs": cb.get("pkcs"), "srv": cb.get("srv"), "tamper": cb.get("tamper"), "cosign": cb.get("cosign"), "rpm": cb.get("rpm"), "unit_notes": cb.get("notes"), "aspect_theorems": ASPECT_THEOREMS})
     return ctx.finish("proof", cov, ["cryptographic primitives are symbolic in the theorems (C16's crypto record / Laws.Pipeline section variables); the harness checks real RSA and ECDSA signatures",
                                      "timestamping is not exercised (no TSA offline): cert.Timestamper is nil in every run and in the model; C10 / C16 cover the token path",
                                      "go-rpmutils, encoding/json, encoding/base64 and go-digest are third-party: their results are inputs of the model (json_ok / media type, header sizes) or "
